@@ -15,6 +15,10 @@ def check(ctx):
     comp = Component(ctx.repo, REL, "AsyncMemoryBank", rule="C22")
     comp.require_modelled("C22")
     ctx.floor("C22", "configurations", len(comp.configs), 2, comp.site)
+    from . import kinds as _kinds
+
+    _kinds.index_space_agreement(ctx, "C22", comp, "AsyncMemoryBank")
+    ctx.floor("C22", "AsyncMemoryBank address fields", _kinds.address_fields(ctx, "C22", REL, "AsyncMemoryBank"), 1, comp.site)
     for ex in comp.configs:
         cn = cfg_name(ex)
         rd, wr = need_body(ex, "read", "C22", comp.site), need_body(ex, "write", "C22", comp.site)
